@@ -26,7 +26,6 @@ import (
 
 	"github.com/go-logr/logr"
 	extv1 "k8s.io/apiextensions-apiserver/pkg/apis/apiextensions/v1"
-	metav1 "k8s.io/apimachinery/pkg/apis/meta/v1"
 	"k8s.io/apimachinery/pkg/apis/meta/v1/unstructured"
 	"k8s.io/apimachinery/pkg/runtime"
 	"k8s.io/apimachinery/pkg/runtime/schema"
@@ -77,13 +76,13 @@ type c08Obj struct {
 }
 
 type c08Step struct {
-	Op   string `json:"op"`   // spawn step del gc unfin
-	C    string `json:"c"`    // spawn: claim xr defined offered rev usage
-	Kind string `json:"kind"` // del/unfin
-	Name string `json:"name"` // spawn/del/unfin
-	T    int    `json:"t"`    // step: thread index
-	O    string `json:"o"`    // step: ok fail conflict crashBefore crashAfter
-	Fin  string `json:"fin"`  // unfin
+	Op   string `json:"op"`             // spawn step del gc unfin
+	C    string `json:"c,omitempty"`    // spawn: claim xr defined offered rev usage
+	Kind string `json:"kind,omitempty"` // del/unfin
+	Name string `json:"name,omitempty"` // spawn/del/unfin
+	T    int    `json:"t,omitempty"`    // step: thread index
+	O    string `json:"o,omitempty"`    // step: ok fail conflict crashBefore crashAfter
+	Fin  string `json:"fin,omitempty"`  // unfin
 }
 
 type c08Scn struct {
@@ -405,7 +404,7 @@ func c08CtrlNames() []string {
 }
 
 func (s c08Snap) lines() []string {
-	var out []string
+	out := []string{}
 	for k, v := range s.objs {
 		out = append(out, k+" "+v.repr())
 	}
@@ -717,7 +716,7 @@ func (w *c08World) reconcileFn(t *c08Thread, ctl, name string) func() (reconcile
 		r := revision.NewReconciler(mgr,
 			revision.WithCache(&c08Cache{t: t}),
 			revision.WithNewPackageRevisionFn(func() pkgv1.PackageRevision { return &pkgv1.ProviderRevision{} }),
-			revision.WithDependencyManager(revision.NewPackageDependencyManager(cl, dag.NewMapDag, pkgv1beta1.ProviderPackageType)),
+			revision.WithDependencyManager(revision.NewPackageDependencyManager(cl, dag.NewMapDag, pkgv1.ProviderGroupVersionKind)),
 		)
 		return func() (reconcile.Result, error) { return r.Reconcile(ctx, req) }
 	case "usage":
@@ -989,11 +988,25 @@ func (w *c08World) monitor(pre, post c08Snap, crash bool, call string) {
 
 // ---------------------------------------------------------------- run
 
-func c08Run(s c08Scn) (c08Obs, []Mon) {
+// c08Run executes a scenario. If next is non-nil the schedule is generated step by
+// step from the live world (and recorded into the returned scenario).
+func c08Run(s c08Scn, next func(w *c08World, i int) (c08Step, bool)) (c08Scn, c08Obs, []Mon) {
 	w := c08NewWorld(s)
 	obs := c08Obs{Steps: []c08StepObs{}}
 	if p := Guard(func() {
-		for _, st := range s.Steps {
+		if next == nil {
+			for _, st := range s.Steps {
+				obs.Steps = append(obs.Steps, w.step(st, s.Running))
+			}
+			return
+		}
+		s.Steps = []c08Step{}
+		for i := 0; ; i++ {
+			st, ok := next(w, i)
+			if !ok {
+				break
+			}
+			s.Steps = append(s.Steps, st)
 			obs.Steps = append(obs.Steps, w.step(st, s.Running))
 		}
 	}); p != "" {
@@ -1006,5 +1019,5 @@ func c08Run(s c08Scn) (c08Obs, []Mon) {
 	}
 	obs.Final = w.snap().lines()
 	w.finish()
-	return obs, w.mons
+	return s, obs, w.mons
 }
